@@ -541,7 +541,7 @@ func (fv *FV) readsCell(name string, cx *Cx) string {
 func (fv *FV) resolveCallee(call *ast.CallExpr, cx *Cx) (*CalleeSpec, []ast.Expr, ast.Expr) {
 	u := fv.u
 	if u.Provider != nil {
-		if cs := u.Provider(fv, call); cs != nil {
+		if cs := u.Provider(fv, call, cx); cs != nil {
 			return cs, call.Args, nil
 		}
 	}
@@ -884,6 +884,7 @@ func (fv *FV) cellForName(name string, pos token.Pos) string {
 func (fv *FV) cellForField(f string) string {
 	switch {
 	case strings.HasPrefix(f, "Elems."):
+		fv.u.ensureSort(Sort(f[6:]))
 		cell := "E!" + f[6:]
 		if _, ok := fv.cellSort[cell]; !ok {
 			fv.cellSort[cell] = arr(SInt, arr(SInt, Sort(f[6:])))
@@ -893,6 +894,8 @@ func (fv *FV) cellForField(f string) string {
 		kv := f[7:]
 		k := strings.Index(kv, "!")
 		ks, vs := Sort(kv[:k]), Sort(kv[k+1:])
+		fv.u.ensureSort(ks)
+		fv.u.ensureSort(vs)
 		if fv.u.mapKeySort == nil {
 			fv.u.mapKeySort = map[string]Sort{}
 		}
